@@ -94,6 +94,7 @@ type Proc struct {
 	Op     int
 	Dead   bool
 	counts map[string]int
+	kcount map[string]int
 	Cache  *rsl.VerifCache
 	task   *Task
 }
@@ -106,6 +107,7 @@ func (e *Env) NewProc(name string) *Proc {
 func (p *Proc) BeginOp(op int) {
 	p.Op = op
 	p.counts = map[string]int{}
+	p.kcount = map[string]int{}
 }
 
 // Restart models a process restart: in-memory caches are lost.
@@ -114,9 +116,14 @@ func (p *Proc) Restart() {
 	p.Dead = false
 }
 
-func (e *Env) faultFor(d Desc) (FaultType, bool) {
+// faultFor finds the fault planned for this call. A fault whose key is "*"
+// names "the n-th call of this kind in this operation", whatever its argument.
+func (e *Env) faultFor(d Desc, kindNth int) (FaultType, bool) {
 	for _, f := range e.Faults {
 		if f.At == d {
+			return f.Type, true
+		}
+		if f.At.Key == "*" && f.At.Op == d.Op && f.At.Kind == d.Kind && f.At.Nth == kindNth {
 			return f.Type, true
 		}
 	}
@@ -150,6 +157,10 @@ func (p *Proc) Before(kind, key string) (Desc, error) {
 	}
 	ck := kind + "\x00" + key
 	p.counts[ck]++
+	if p.kcount == nil {
+		p.kcount = map[string]int{}
+	}
+	p.kcount[kind]++
 	d := Desc{Op: p.Op, Kind: kind, Key: key, Nth: p.counts[ck]}
 	e := p.Env
 	if e.sch != nil && p.task != nil && isRefKind(kind) {
@@ -159,7 +170,7 @@ func (p *Proc) Before(kind, key string) (Desc, error) {
 		}
 	}
 	ev := Event{Seq: e.NextSeq(), Proc: p.Name, Desc: d, Write: isWriteKind(kind)}
-	ft, has := e.faultFor(d)
+	ft, has := e.faultFor(d, p.kcount[kind])
 	if has {
 		ev.Fault = ft
 	}
@@ -185,7 +196,7 @@ func (p *Proc) Before(kind, key string) (Desc, error) {
 
 // After is called once the call's effect has happened.
 func (p *Proc) After(d Desc) error {
-	ft, has := p.Env.faultFor(d)
+	ft, has := p.Env.faultFor(d, p.kcount[d.Kind])
 	if !has {
 		return nil
 	}
